@@ -6,7 +6,7 @@ from . import tlc, harness
 from .layout import Pipeline, payload
 from .result import Result
 
-CFG = {"quick": ["MC_Graph_q1.cfg", "MC_Graph_q2.cfg", "MC_Graph_q3.cfg", "MC_Graph_q4.cfg"], "thorough": ["MC_Graph_t1.cfg", "MC_Graph_t2.cfg", "MC_Graph_t3.cfg"]}
+CFG = {"quick": ["MC_Graph_q1.cfg", "MC_Graph_q2.cfg", "MC_Graph_q3.cfg", "MC_Graph_q4.cfg", "MC_Graph_q5.cfg"], "thorough": ["MC_Graph_t1.cfg", "MC_Graph_t2.cfg", "MC_Graph_t3.cfg", "MC_Graph_q5.cfg"]}
 
 
 def input_key(case):
